@@ -3,6 +3,7 @@
    and what it read from stdin (child_got); G records what earlier read() calls returned (gdout, gderr).
    Short reads and short writes are the kernel's choices k, universally quantified through gstep. *)
 From Coq Require Import List NArith Bool.
+Require SP.Lib.WinComm SP.Proofs.WinCommProofs.
 Require Import SP.Params SP.Lib.Comm SP.Kernel.CommK SP.Kernel.CommSys
                SP.Proofs.CommBase SP.Proofs.CommReady SP.Proofs.CommInv SP.Proofs.CommTerm SP.Proofs.CommThms.
 Import ListNotations.
@@ -49,6 +50,26 @@ Theorem C02_eof_immediately :
     ga g' = Call KClose.
 Proof. exact eof_immediately. Qed.
 Print Assumptions C02_eof_immediately.
+
+Module Win.
+Import SP.Lib.WinComm SP.Proofs.WinCommProofs.
+Local Open Scope nat_scope.
+(* ---- the cfg(windows) thread variant ---- *)
+Theorem C02_win_bytes_exact : forall (pi po pe : bool) (ci co ce : nat) (child : list cop) (input : list N) chs s,
+  Forall good_choice chs -> wrun (winit pi po pe ci co ce child input) chs = Some s ->
+  (po = true -> seen_out s ++ buf (pout (kw s)) = wrote_out (kw s))
+  /\ (pe = true -> seen_err s ++ buf (perr (kw s)) = wrote_err (kw s))
+  /\ (pi = true -> exists rest, child_got (kw s) ++ buf (pin (kw s)) ++ rest = input
+                               /\ (forall r, h_in s = Some (WRun r) -> rest = r) /\ (h_in s = Some (WHold PEof) -> rest = [])).
+Proof. exact win_bytes_exact. Qed.
+Print Assumptions C02_win_bytes_exact.
+
+Theorem C02_win_optionness : forall s s' r o e, finish s = Some (s', (r, o, e)) ->
+  (o = None <-> h_out s = None) /\ (e = None <-> h_err s = None).
+Proof. exact win_optionness. Qed.
+Print Assumptions C02_win_optionness.
+
+End Win.
 
 Example C02_nonvacuous :
   let g0 := ginit true true false 4096 4096 4096 [CRead 3; CWrite SOut [5;6;7]%N; CRead 10] [1;2;3;4]%N None None in
